@@ -55,7 +55,7 @@ TABLE = [
     ("pinv", "torch.linalg.pinv(A)"), ("pinv_apply", "torch.linalg.pinv(A) @ w"),
     ("cdist", "torch.cdist(A, A, compute_mode='donot_use_mm_for_euclid_dist')"),
     ("topk_vals", "torch.topk(w, k=2, largest=False)[0]"), ("topk_idx", "torch.topk(w, k=2, largest=False)[1]"),
-    ("topk_rows", "torch.topk(A, k=2, largest=False)[0]"), ("topk_values_attr", "torch.topk(w, k=2).values"),
+    ("topk_rows", "torch.topk(A, k=2, largest=False)[0]"), ("topk_dim0", "torch.topk(A, k=2, dim=0, largest=False)[0]"), ("topk_dim0_largest", "torch.topk(A, k=1, dim=0).values"), ("topk_values_attr", "torch.topk(w, k=2).values"),
     ("sort_vals0", "torch.sort(A, dim=0)[0]"), ("sort_idx", "torch.sort(w)[1]"), ("argsort_desc", "torch.argsort(w, descending=True)"),
     ("narrow", "torch.narrow(A, dim=0, start=1, length=2)"), ("argmin", "torch.argmin(w)"), ("take", "A[torch.argsort(w)]"),
     ("takecols", "A[:, torch.argsort(v)]"), ("one_hot", "F.one_hot(torch.topk(w, k=2)[1], num_classes=A.shape[0]).sum(dim=0)"),
